@@ -44,7 +44,7 @@ has that capability, or `h` is an ordinary name and some value on `v`'s `@base` 
 `k ≥ 0`, `v` itself included) has type name `h`. -/
 theorem check_spec (h : TyName) (n : Bool) (v : V) :
     check h n v = true ↔
-      (n = true ∧ v = V.null) ∨ h = name_always ∨ (h = name_callable ∧ callable v = true) ∨
+      (n = true ∧ v = V.null) ∨ h = name_always ∨ (h = name_callable ∧ callableHint v = true) ∨
       (h = name_indexable ∧ indexable v = true) ∨ (h = name_iterable ∧ iterableHint v = true) ∨
       (¬ isSpecial h ∧ ∃ k w, V.baseIter k v = some w ∧ typeName w = h) := by
   have chain : (typeName v == h || baseChain h v) = true ↔ ∃ k w, V.baseIter k v = some w ∧ typeName w = h := by
